@@ -594,6 +594,3 @@ Qed.
 
 End WithNil.
 
-(* the output never contains a raw < > & (escapeHTML), at any depth *)
-Lemma dec_of_N_inert n : Forall html_inert (dec_of_N n).
-Proof. eapply Forall_impl; [|apply dec_of_N_digits]. unfold is_digit_byte, html_inert. intros; lia. Qed.
